@@ -17,6 +17,7 @@ import SqiProofs.KeccakPerm
 import SqiGen.KeccakParams
 import SqiProofs.SpongeMain
 import SqiProofs.SpongeGen4
+import SqiProofs.SpongeGenSq3
 import SqiProofs.Challenge
 import SqiProofs.C20Kat
 import SqiProofs.DrbgRefine
@@ -132,6 +133,29 @@ theorem gen_absorb_chunk_step (F : Fips202.State → Fips202.State) (fuel r : Na
   refine ⟨v', h1, ?_⟩
   simp only [incAbsorbMany, List.foldl_append, List.foldl_cons, List.foldl_nil] at h2 h3 ⊢
   rw [h2, h3]
+
+/-- the re-extracted `store64(buf + off, u)` writes the 8 little-endian bytes of `u` at `off … off+8` and nothing else -/
+theorem gen_store64_eq_model (buf : List UInt8) (off : Nat) (u : UInt64) (hl : off + 8 ≤ buf.length) :
+    SqiProofs.SpongeGen.Written buf (SqiGen.Sponge.store64At buf off u) off 8 (store64 u) :=
+  SqiProofs.SpongeGen.store64At_written buf off u hl
+
+/-- the re-extracted `keccak_squeezeblocks` = the hand model `squeezeBlocksC`: `nblocks * r` bytes are stored at `h`, the
+    rest of the buffer is untouched, the lanes are the model's -/
+theorem gen_squeezeblocks_eq_model (F : Fips202.State → Fips202.State) (fuel r : Nat) (h8 : r % 8 = 0)
+    (h : List UInt8) (hoff nblocks i0 : Nat) (s : Fips202.State) (hl : hoff + nblocks * r ≤ h.length)
+    (hf : r ≤ fuel) (hn : nblocks ≤ fuel) :
+    ∃ v', SqiGen.Sponge.keccak_squeezeblocks.run F fuel ⟨h, hoff, nblocks, s, r, i0⟩ = some v' ∧
+      SqiProofs.SpongeGen.Written h v'.h hoff (nblocks * r) (squeezeBlocksC F r nblocks s).1 ∧
+      v'.s = (squeezeBlocksC F r nblocks s).2 :=
+  SqiProofs.SpongeGen.squeezeblocks_eq F fuel r h8 hf nblocks fuel ⟨h, hoff, nblocks, s, r, i0⟩ rfl rfl hl hn
+
+/-- the re-extracted `keccak_inc_squeeze` = the hand model `incSqueeze` (which `squeeze_chunks` is about) -/
+theorem gen_inc_squeeze_eq_model (F : Fips202.State → Fips202.State) (fuel r : Nat) (h0 : 0 < r) (st : IncState)
+    (hp : st.pos ≤ r) (h : List UInt8) (hoff outlen i0 : Nat) (hl : hoff + outlen ≤ h.length) (hf : outlen + r < fuel) :
+    ∃ v', SqiGen.Sponge.keccak_inc_squeeze.run F fuel ⟨h, hoff, outlen, st.s, st.pos, r, i0⟩ = some v' ∧
+      SqiProofs.SpongeGen.Written h v'.h hoff outlen (incSqueeze F r st outlen).1 ∧
+      (⟨v'.s_inc, v'.pos⟩ : IncState) = (incSqueeze F r st outlen).2 :=
+  SqiProofs.SpongeGen.inc_squeeze_eq F fuel r h0 st hp h hoff outlen i0 hl hf
 
 theorem genF_eq : SqiGen.Keccak.keccakF = Fips202.keccakF := funext keccakF_gen_eq_spec
 
